@@ -269,13 +269,14 @@ def generate(ctx):
         open(src, "w").write(konst_program(t, cases))
         jobs.append((t, src, binp))
     timeout = 60 if thorough else 30
-    # `A.., take(K)`: per type one program with the cases predicted to panic at MAX (k >= d: the emitted loop pulls
-    # k+1 items) and one with the others; the prediction only balances the work, the results come from rustc
+    # `A.., take(K)`: per type one program with the cases predicted to panic at MAX (k > d: the emitted loop pulls
+    # exactly k items, the (d+1)-th is the step at MAX) and one with the others; the prediction only balances the
+    # work, the results come from rustc (a const that panics in the second program costs one more compilation)
     top_jobs = []
     for t, cases in all_top:
         idx = [(i, dd, k) for i, (dd, k) in enumerate(cases)]
-        top_jobs.append((t, "p", [c for c in idx if c[2] >= c[1]]))
-        top_jobs.append((t, "v", [c for c in idx if c[2] < c[1]]))
+        top_jobs.append((t, "p", [c for c in idx if c[2] > c[1]]))
+        top_jobs.append((t, "v", [c for c in idx if c[2] <= c[1]]))
     with concurrent.futures.ThreadPoolExecutor(max_workers=16) as ex:
         top_f = [ex.submit(top_results, d, t, tag, cs, timeout) for t, tag, cs in top_jobs]
         res = list(ex.map(lambda j: _compile(j[1], j[2], timeout), jobs))
@@ -288,8 +289,9 @@ def generate(ctx):
     for t, cases in all_top:
         for i, (dd, k) in enumerate(cases):
             top_impl[top_req(t, dd, k)] = top_res.get((t, i), "missing")
-            # `take(k)` pulls k+1 items: k == d is the existing konst-vs-std observation (notes/C09.md)
-            top_scope[top_req(t, dd, k)] = k != dd
+            # `take(k)` pulls exactly k items (countdown tested before the source is pulled): k == d, where a
+            # (k+1)-th pull would be the step at MAX and fail the const evaluation, is in scope like every other k
+            top_scope[top_req(t, dd, k)] = True
     impl = {}
     status = {}
     for (t, src, binp), (st, err) in zip(jobs, res):
